@@ -48,26 +48,23 @@ Definition sl_id (k : nat) : nat := k.
 Definition sl_val (k : nat) : nat := match k with 0 => 2 | 1 => 1 | _ => S k end.
 
 (* body of operator= once `other` (tag ot, value ov) has been materialised in temporary slot [sl 0] *)
-Definition var_assign_body (vs : vvars) (i : nat) (sl : nat -> nat) (ot : option nat) (ovl : N) : vvars * list ev :=
-  match live_at vs i with
-  | Some me =>
-    if tag_eqb (tag me) ot then
-      match ot with
-      | Some a => (wr vs i (Live (mk_vrt ot (fresh ovl))), assign_chain i sl a)
-      | None => (vs, [])                              (* both empty: nothing to do (after the D18 fix) *)
-      end
-    else
-      (wr vs i (Live (mk_vrt ot (match ot with Some _ => fresh ovl | None => vv me end))),
-       (if has_tag me then [EDestroy (sv i)] else [])
-       ++ (match ot with Some _ => [EUse (st (sl 0)); EConstruct (sv i)] | None => [] end))
-  | None => (vs, [])
-  end.
+Definition var_assign_body (me : vrt) (vs : vvars) (i : nat) (sl : nat -> nat) (ot : option nat) (ovl : N) : vvars * list ev :=
+  if tag_eqb (tag me) ot then
+    match ot with
+    | Some a => (wr vs i (Live (mk_vrt ot (fresh ovl))), assign_chain i sl a)
+    | None => (vs, [])                              (* both empty: nothing to do (after the D18 fix) *)
+    end
+  else
+    (wr vs i (Live (mk_vrt ot (match ot with Some _ => fresh ovl | None => vv me end))),
+     (if has_tag me then [EDestroy (sv i)] else [])
+     ++ (match ot with Some _ => [EUse (st (sl 0)); EConstruct (sv i)] | None => [] end)).
 
 Definition var_assign (k : ekind) (mv : bool) (vs : vvars) (i j : nat) : vvars * out * list ev :=
   match live_at vs i, live_at vs j with
-  | Some _, Some s =>
+  | Some me, Some s =>
+    (* [me] is this variant as operator= sees it: only its tag matters (the parameter was built before) *)
     let vs1 := if mv && has_tag s then vmark k vs j else vs in
-    let '(vs2, e) := var_assign_body vs1 i sl_id (tag s) (val (vv s)) in
+    let '(vs2, e) := var_assign_body me vs1 i sl_id (tag s) (val (vv s)) in
     (vs2, RUnit,
      (if has_tag s then [EUse (sv j); EConstruct (st 0)] else []) ++ e
      ++ (if has_tag s then [EDestroy (st 0)] else []))
@@ -116,10 +113,10 @@ Definition vstep (nalt : nat) (k : ekind) (vs : vvars) (o : vop) : vvars * out *
   | VMAssign i j => var_assign k true vs i j
   | VAssignVal i a v =>
     match live_at vs i with
-    | Some _ =>
+    | Some me =>
       if Nat.ltb a nalt then
         (* parameter object = slot t0, construct_ parameter = t1, storage of `other` = t2 *)
-        let '(vs1, e) := var_assign_body vs i sl_val (Some a) v in
+        let '(vs1, e) := var_assign_body me vs i sl_val (Some a) v in
         (vs1, RUnit, from_value_evs 0 (st 2) ++ [EDestroy (st 1)] ++ e ++ [EDestroy (st 2); EDestroy (st 0); EDestroy sa])
       else vskip vs
     | None => vskip vs
